@@ -73,6 +73,9 @@ class MediaSegment(DashElement):
                                  period_availability_start: datetime.datetime,
                                  presentationTimeOffset: int,
                                  timescale: int) -> None:
+        if period_availability_start is None or self.mpd.timeShiftBufferDepth is None:
+            # (their absence from a dynamic manifest is reported by the MPD element)
+            return
         decode_time = self.expected_decode_time
         if decode_time is None:
             decode_time = (
@@ -189,7 +192,12 @@ class MediaSegment(DashElement):
             self.elt.check_not_in(pts, pts_values)
             pts_values.add(pts)
             if sample.duration is None:
-                samp_dur = moov.mvex.trex.default_sample_duration
+                try:
+                    samp_dur = moov.mvex.trex.default_sample_duration
+                except AttributeError:
+                    self.elt.add_error(
+                        'Sample has no duration and the init segment has no trex box')
+                    break
             else:
                 samp_dur = sample.duration
             dts += samp_dur
